@@ -14,7 +14,7 @@ let fops : float ops = {
   o_zero = 0.0; o_add = ( +. ); o_sub = ( -. ); o_mul = ( *. ); o_div = ( /. );
   o_ltb = (fun a b -> a < b); o_eqb = (fun a b -> a = b);
   o_thr = 1e-12; o_two = 2.0; o_half = 0.5; o_big = 1e100; o_ten = 10.0 }
-let mone = -1.0
+let lowest = -. max_float   (* -std::numeric_limits<double>::max() *)
 let tiny = 1e-14
 let micro = 1e-6
 
@@ -37,7 +37,7 @@ let () =
          | "BOX" ->
            let (x, y) = solve_2d fops (f 1) (f 2) (f 3) (f 4) (f 5) (f 6) (f 7) (f 8) (f 9) (f 10) (f 11) in add x; add y
          | "TRI" ->
-           let (x, y) = solve_tri fops mone (f 1) (f 2) (f 3) (f 4) (f 5) (f 6) (f 7) (f 8) in add x; add y
+           let (x, y) = solve_tri fops lowest (f 1) (f 2) (f 3) (f 4) (f 5) (f 6) (f 7) (f 8) in add x; add y
          | "GAIN" -> add (max_gain_2d fops micro (f 1) (f 2) (f 3) (f 4) (f 5))
          | "LINE" -> add (max_gain_line fops (f 1) (f 2) (f 3) (f 4) (f 5))
          | "SPARSE" ->
@@ -58,7 +58,7 @@ let () =
            let op = if e = e' && pv = pw then Op1 (nat_of_int me, nat_of_int pv, gv, qvv)
                     else Op2 (nat_of_int me, nat_of_int pv, nat_of_int me', nat_of_int pw, gv, gw, qvv, qvw, qww) in
            if t.(0) = "SS" then begin
-             let s' = simplex_step fops mone tiny (nat_of_int p) c { al = al0; vs = vs0 } op in
+             let s' = simplex_step fops lowest tiny (nat_of_int p) c { al = al0; vs = vs0 } op in
              List.iter (fun ex ->
                for q = 0 to p - 1 do add (s'.al (nat_of_int ex) (nat_of_int q)) done;
                add (s'.vs (nat_of_int ex))) [me; me']
